@@ -3,6 +3,7 @@
 from __future__ import annotations
 
 import ast
+import re
 
 from tiv.astutil import conds, body_walk, call_name, dotted, enclosing_stmt, flatten_boolop, guards, kw, norm, short, stores_in, walk_local, with_context
 from tiv.match import b2s, find_exprs, find_stmts, match_expr, match_stmt
@@ -200,7 +201,8 @@ def run(ck, m):
                             else:
                                 txt += "<?>"
                             j += 1
-                        out.append((txt, closed))
+                        nxt = n.items[j] if j < len(n.items) else None
+                        out.append((txt, closed, nxt.text if isinstance(nxt, emit.Sym) else None))
                         i = j
                         continue
                     go(it)
@@ -217,7 +219,7 @@ def run(ck, m):
         ck.expect(cs is not None, "iterm2 renderer: too many free conditions in an output shape")
         for f, t in cs or []:
             lines = any("LINES" in k and v for k, v in f.items())
-            for txt, closed in control_strings(t):
+            for txt, closed, payload in control_strings(t):
                 n_ctl += 1
                 ck.expect(closed and "<?>" not in txt, f"iterm2 renderer: image arguments not in a recognised form: `{txt[:100]}`")
                 if not closed or "<?>" in txt:
@@ -227,7 +229,10 @@ def run(ck, m):
                 ck.ob("R3", ret, kv.get("width") == "<self.rendered_size[0]>" and kv.get("height") == want_h and kv.get("preserveAspectRatio") == "0" and kv.get("inline") == "1",
                       f"iterm2 control data must carry width=<rendered width>, {'height=1 (one row per strip)' if lines else 'height=<rendered height>'}, preserveAspectRatio=0, inline=1; found `{txt[:120]}`",
                       stmt=f"iterm2 {'LINES' if lines else 'WHOLE/ANIM'}: width/height keys")
-                ck.ob("R3", ret, kv.get("size") == "<compressed_image.tell()>", f"size= must be the length of the encoded buffer (compressed_image.tell()); found `{kv.get('size')}`", stmt="iterm2: size={compressed_image.tell()}")
+                mo = re.fullmatch(r"<(.*)\.tell\(\)>", kv.get("size") or "", re.S)
+                oksz = mo is not None and payload in (f"standard_b64encode({mo.group(1)}.read()).decode()", f"standard_b64encode({mo.group(1)}.getvalue()).decode()")
+                ck.ob("R3", ret, oksz, f"size= must be the length (<buffer>.tell()) of the very buffer whose content is sent as the payload; found size=`{(kv.get('size') or '')[:80]}`, payload `{(payload or '')[:80]}`",
+                      stmt="iterm2: size={<buffer>.tell()} of the transmitted buffer")
     ck.expect(n_ctl >= 12, f"iterm2 renderer: expected >= 12 (case, image command) pairs, found {n_ctl}")
     # strips: PIL.Image.frombytes(mode, (w, h), <raw>.read(n)) with n == w * h * len(mode), h == pixel height // rendered height
     fbs = [c for c in body_walk(ir) if isinstance(c, ast.Call) and norm(c.func).endswith("Image.frombytes")]
